@@ -303,7 +303,11 @@ class Executor:
     def _free_def(self, mod, scope, name, st, depth=0):
         cache = self.__dict__.setdefault("_free_defs", {})
         key = (id(scope.node), name, self.spec.ctx_key, tuple(sorted(st.config.items())), id(self.spec.roles))
+        und = self.__dict__.setdefault("_free_def_undecided", {})
         if key in cache:
+            # the configuration tests this evaluation could not decide are part of its result
+            for n, ks in und.get(key, {}).items():
+                self.undecided.setdefault(n, set()).update(ks)
             return cache[key]
         cache[key] = None
         if depth > 6 or isinstance(scope.node, ast.Lambda) or not hasattr(scope.node, "body"):
@@ -311,7 +315,9 @@ class Executor:
         a = self._single_assignment(scope, name)
         if a is None:
             return None
+        before = {n: set(ks) for n, ks in self.undecided.items()}
         t = self._const_eval(mod, scope, a.value, st, len(cache))
+        und[key] = {n: set(ks) - before.get(n, set()) for n, ks in self.undecided.items() if set(ks) - before.get(n, set())}
         if t is None or not self._immutable(t, True):
             return None
         if t[0] == "dict" and self._container_escapes(scope, name):
@@ -1032,6 +1038,7 @@ class Executor:
                 return None
             keys, vals = [], []
             n0 = len(s2.trace)
+            failed = False
             for row in it[1:]:
                 outs = list(self._assign(g.target, row, s2, node))
                 if len(outs) != 1 or outs[0][1] is not None:
@@ -1041,7 +1048,12 @@ class Executor:
                 for cond in g.ifs:
                     bs = list(self.truth(cond, s2))
                     if len(bs) != 1 or is_raise(bs[0][1]):
-                        return None
+                        # undecided: the table cannot be built; the remaining rows are still scanned so that every
+                        # configuration parameter the filters test is recorded as undecided (discovery of the space)
+                        failed = True
+                        s2 = bs[0][0] if bs else s2
+                        keep = False
+                        break
                     s2, b = bs[0]
                     if not b:
                         keep = False
@@ -1054,6 +1066,8 @@ class Executor:
                 s2, (k, v) = kv[0]
                 keys.append(k)
                 vals.append(v)
+            if failed:
+                return None
             for e in s2.trace[n0:]:
                 if e.k == "call" and e.func[0] == "glob":
                     st.trace.append(e)
@@ -1354,6 +1368,8 @@ class Executor:
                 if x[0] == "param" and x[1] in st.config and y[0] == "const" and op in ("Is", "IsNot", "Eq", "NotEq"):
                     v = st.config[x[1]]
                     cv = y[1]
+                    if v == "Falsy" and op in ("Eq", "NotEq") and cv is not None:
+                        return None      # an explicit falsy value (0, '', False): 0 == False holds, '' == False does not
                     if cv is True:
                         r = v == "True"
                     elif cv is False:
